@@ -79,6 +79,8 @@ HOF = {
     "std::iter::Iterator::fold": (2, {2: ("acc", 1), 3: ("elem", 0)}),
     "std::iter::Iterator::try_fold": (2, {2: ("acc", 1), 3: ("elem", 0)}),
     "std::option::Option::map": (1, {2: ("some", 0)}),
+    "std::option::Option::map_or": (2, {2: ("some", 0)}),
+    "std::result::Result::map_or": (2, {2: ("ok", 0)}),
     "std::option::Option::and_then": (1, {2: ("some", 0)}),
     "std::option::Option::filter": (1, {2: ("some", 0)}),
     "std::option::Option::is_some_and": (1, {2: ("some", 0)}),
@@ -139,6 +141,8 @@ class Prov:
         self._closure_sites = {}
         self._mut_idx = {}
         self._kill_idx = {}
+        self._ctor_like = {}
+        self._infeasible_memo = {}
         self._live = {}
         self._rl_memo = {}
         self._in_progress = set()
@@ -241,6 +245,42 @@ class Prov:
             return db in cfg.reachable_from(db)
         return ub in cfg.reachable_from(db)
 
+    def _infeasible(self, fn, bid):
+        """block `bid` only runs after taking a `match` edge that contradicts the scrutinee's visible constructor
+        (`let op = Op::Set{..}; match op { Op::Delete{..} => <bid> }` - what a spliced helper leaves behind)"""
+        key = (fn.key, bid)
+        r = self._infeasible_memo.get(key)
+        if r is not None:
+            return r
+        self._infeasible_memo[key] = False     # re-entrancy guard
+        r = False
+        cfg = cfg_of(fn)
+        for d in cfg.dominators().get(bid, ()):
+            if not (isinstance(d, tuple) and d[0] == "e"):
+                continue
+            _, sb, idx = d
+            t = fn.blocks[sb]["term"]
+            if "discr_of" not in t:
+                continue
+            o = self.place(fn, t["discr_of"], (sb, "t"))
+            while o[0] == "vp":
+                o = o[2]
+            if o[0] != "agg" or "::" not in o[1] or o[1] in ("tuple", "array", "vec"):
+                continue
+            vn = o[1].rsplit("::", 1)[1]
+            names = [n for v, b, n in t["targets"]]
+            if vn not in [n for v, n in t.get("variants", [])]:
+                continue
+            if idx == "o":
+                if vn in names:
+                    r = True
+            elif names[idx] != vn:
+                r = True
+            if r:
+                break
+        self._infeasible_memo[key] = r
+        return r
+
     def _kills(self, fn, l):
         """sites that overwrite local l as a whole"""
         ks = self._kill_idx.get((fn.key, l))
@@ -318,6 +358,7 @@ class Prov:
         live = self._live.get(fn.key)
         if live is None:
             live = self._live[fn.key] = cfg_of(fn).live_nodes()
+        multi_def = len(self.defs(fn).get(l, [])) > 1
         if 1 <= l <= fn.arg_count:
             if fn.kind == "closure" and l == 1:
                 whole.append(("env",))
@@ -332,6 +373,8 @@ class Prov:
             if site is not None and not self._reaches_live(fn, l, (bid, i), site):
                 continue
             if bid not in live:
+                continue
+            if multi_def and self._infeasible(fn, bid):
                 continue
             path = tuple(e["name"] for e in proj if e["k"] == "field")
             hard = [e for e in proj if e["k"] not in ("field", "deref", "downcast")]
@@ -413,6 +456,20 @@ class Prov:
                 return v
         if callee_is_vp(c) and args:
             return ("vp", c["name"], args[0])
+        if c["key"] in ("std::ops::RangeBounds::start_bound", "std::ops::RangeBounds::end_bound") and len(args) == 1:
+            # (Bound<T>, Bound<T>) as RangeBounds: the component itself
+            tup = peel(args[0])
+            if tup[0] == "agg" and tup[1] == "tuple" and len(tup[2]) == 2:
+                return ("vp", c["name"], tup[2][0 if c["name"] == "start_bound" else 1][1])
+        if c["key"] in ("std::option::Option::unwrap_or", "std::result::Result::unwrap_or") and len(args) == 2:
+            # `x.unwrap_or(d)` is `match x { Some(v) => v, None => d }`
+            return multi([payload(args[0], "some" if c["key"].startswith("std::option") else "ok"), args[1]])
+        if c["key"] in ("std::option::Option::map_or", "std::result::Result::map_or") and len(args) == 3:
+            # `x.map_or(d, |v| e)` is `match x { Some(v) => e, None => d }`
+            cl = peel(args[2])
+            g = self.facts.fn(cl[1]) if cl[0] == "closure" else None
+            if g is not None:
+                return multi([args[1], self.ret(g)])
         if c["key"] in ("std::option::Option::map", "std::result::Result::map") and len(args) == 2:
             # `x.map(|v| e)` is `match x { Some(v) => Some(e), None => None }` (resp. Ok / Err)
             cl = peel(args[1])
@@ -424,7 +481,32 @@ class Prov:
                 return multi([("agg", "std::result::Result::Ok", (("0", r),)), ("agg", "std::result::Result::Err", (("0", payload(args[0], "err")),))])
         if c["key"] == "<indirect>":
             return ("call", "<indirect>", (self.operand(fn, c["indirect"], site),) + args, None, (fn.key, bid))
+        if c.get("local"):
+            g = self.facts.fn(c.get("resolved") or c["key"])
+            if g is not None and self._is_constructor_like(g) and len(args) == g.arg_count:
+                # `self.querier(api, storage, block)` is `RouterQuerier { router: self, api, .. }`: a local function that only
+                # packs / projects its arguments has the origin of its body with the arguments substituted
+                def sub(x):
+                    if x[0] == "param" and 1 <= x[1] <= len(args):
+                        return args[x[1] - 1]
+                    return None
+                return map_origin(self.ret(g), sub)
         return ("call", c["key"], args, c.get("resolved"), (fn.key, bid))
+
+    def _is_constructor_like(self, g):
+        """a local non-closure function whose body is straight-line and makes no call other than value-preserving ones"""
+        r = self._ctor_like.get(g.key)
+        if r is None:
+            r = g.kind != "closure" and not g.derived and len(g.order) <= 6
+            if r:
+                for bid in g.order:
+                    t = g.blocks[bid]["term"]
+                    if t["k"] == "switch" or t["k"] == "tailcall":
+                        r = False
+                    elif t["k"] == "call" and not callee_is_vp(t["callee"]):
+                        r = False
+            self._ctor_like[g.key] = r
+        return r
 
     def _vec_macro(self, fn, op, bid):
         """`vec![a, b]` at mir-opt-level=0: Box::new_uninit(); (*ptr).value.value.0 = [a, b]; box_assume_init_into_vec_unsafe(box).
@@ -807,6 +889,42 @@ def leaves(o, out=None):
         out.add(("bound", o[1]))
         leaves(o[2], out)
     return out
+
+
+def map_origin(o, f):
+    """rebuild the tree bottom-up, replacing every node x by f(x) when that is not None (projections and payloads are
+    re-applied so that a substituted aggregate is looked into)"""
+    r = f(o)
+    if r is not None:
+        return r
+    k = o[0]
+    if k == "vp":
+        return ("vp", o[1], map_origin(o[2], f))
+    if k == "call":
+        return ("call", o[1], tuple(map_origin(a, f) for a in o[2])) + tuple(o[3:])
+    if k == "mutby":
+        return ("mutby", o[1], tuple(map_origin(a, f) for a in o[2])) + tuple(o[3:])
+    if k in ("agg", "closure"):
+        return (k, o[1], tuple((n, map_origin(v, f)) for n, v in o[2]))
+    if k == "multi":
+        return multi([map_origin(x, f) for x in o[1]])
+    if k == "upd":
+        return ("upd", map_origin(o[1], f), tuple((p, map_origin(v, f)) for p, v in o[2]))
+    if k == "binop":
+        return (k, o[1], map_origin(o[2], f), map_origin(o[3], f))
+    if k in ("unop", "cast"):
+        return (k, o[1], map_origin(o[2], f))
+    if k in ("ok", "err", "some"):
+        return payload(map_origin(o[1], f), k)
+    if k in ("discr", "index"):
+        return (k, map_origin(o[1], f))
+    if k == "field":
+        return project(map_origin(o[1], f), o[2])
+    if k == "variant":
+        return variant(map_origin(o[1], f), o[2])
+    if k == "bound":
+        return (k, o[1], map_origin(o[2], f))
+    return o
 
 
 def contains(o, pred):
